@@ -221,6 +221,55 @@ func c06(repo string, out *fg.Out) error {
 		return fmt.Errorf("ParseEnvelope: `if %s <= len(payload) { return string(payload[3:%s]), payload[%s:] }` not found", envEnd, envEnd, envEnd)
 	}
 
+	// ---- rotate: file name = "arc-" + time.Now().UTC().Format("20060102_150405.<fraction digits>") + ".wal",
+	//      opened with O_WRONLY|O_CREATE|O_APPEND. The number of fraction digits is the name's time resolution.
+	rotF, rotate := fg.FindFunc(files, "Writer", "rotate")
+	nameRes := int64(-1)
+	for _, c := range fg.CallsNamed(rotate.Body, "Format") {
+		if len(c.Args) != 1 {
+			continue
+		}
+		bl, ok := c.Args[0].(*ast.BasicLit)
+		if !ok || bl.Kind != token.STRING {
+			continue
+		}
+		layout, err := strconv.Unquote(bl.Value)
+		if err != nil {
+			continue
+		}
+		if !strings.Contains(strings.ReplaceAll(rotF.Text(c.Fun), " ", ""), "time.Now().UTC().Format") {
+			return fmt.Errorf("rotate: file name time is no longer time.Now().UTC().Format(…)")
+		}
+		const pre = "20060102_150405"
+		if !strings.HasPrefix(layout, pre) {
+			return fmt.Errorf("rotate: unexpected file-name time layout %q", layout)
+		}
+		frac := strings.TrimPrefix(layout, pre)
+		switch {
+		case frac == "":
+			nameRes = 1_000_000_000
+		case frac[0] == '.' && len(frac) <= 10 && strings.Trim(frac[1:], "0") == "":
+			nameRes = 1
+			for i := len(frac) - 1; i < 9; i++ {
+				nameRes *= 10
+			}
+		default:
+			return fmt.Errorf("rotate: unexpected fraction in file-name time layout %q", layout)
+		}
+	}
+	if nameRes < 0 {
+		return fmt.Errorf("rotate: time.Now().UTC().Format(<layout>) not found")
+	}
+	openOK := false
+	for _, c := range fg.CallsNamed(rotate.Body, "OpenFile") {
+		if len(c.Args) == 3 && strings.ReplaceAll(rotF.Text(c.Args[1]), " ", "") == "os.O_WRONLY|os.O_CREATE|os.O_APPEND" {
+			openOK = true
+		}
+	}
+	if !openOK {
+		return fmt.Errorf("rotate: os.OpenFile(newPath, os.O_WRONLY|os.O_CREATE|os.O_APPEND, …) not found")
+	}
+
 	// ---- ReadAll: the loop `for { entry, err := r.readEntry(f); if err == io.EOF {break}; if err != nil {…; POLICY}; … }`
 	_, readAll := fg.FindFunc(files, "Reader", "ReadAll")
 	if readAll == nil {
@@ -374,6 +423,8 @@ func c06(repo string, out *fg.Out) error {
 	fmt.Fprintf(w, "def policyShape : String := %s\n", fg.LeanStr(policyShape))
 	fmt.Fprintf(w, "/-- ParseEnvelope computes `3 + dbLen` in int (shape checked above): no uint16 wrap-around -/\n")
 	fmt.Fprintf(w, "def envelopeBoundInInt : Bool := true\n")
+	fmt.Fprintf(w, "/-- resolution (ns) of the time in rotate's file name layout; files are opened O_CREATE|O_APPEND -/\n")
+	fmt.Fprintf(w, "def fileNameResolutionNs : Nat := %d\n", nameRes)
 	fmt.Fprintf(w, "end Arc.Generated.C06\n")
 	for k, v := range vals {
 		out.JSON[k] = v
@@ -384,5 +435,6 @@ func c06(repo string, out *fg.Out) error {
 	out.JSON["decode_err_continues"] = decodeCont
 	out.JSON["policy_shape"] = policyShape
 	out.JSON["envelope_bound_in_int"] = true
+	out.JSON["file_name_resolution_ns"] = nameRes
 	return nil
 }
